@@ -1012,6 +1012,8 @@ class MergeTreeInterp:
             if isinstance(b, Slot):
                 if e.attr == "shm":
                     return SlotRef(b)
+                if e.attr == "args":
+                    return "<args>"      # precondition of the call: the sketches were built with the same arguments
                 return UNK
             if b is None and e.attr in ("shm", "args"):
                 raise MTViolation("n=%d: a sketch that was already discarded is used again (`%s`)" % (self.n, unparse(e)))
